@@ -1,4 +1,5 @@
 """T-TABLE / T-ARM helpers: finite tables extracted from the shape of match code."""
+import re
 from .mir import norm, show
 
 
@@ -272,7 +273,78 @@ def hir_str_table(fn):
                 table[l] = tgt
         if table:
             return table
-    return None
+    return const_search_table(fn)
+
+
+def const_search_table(fn):
+    """The same table kept as data: `TABLE.iter().find(|(n, _)| *n == name).map(|&(_, v)| v)` over a constant array of
+    (literal, Path) pairs.  Accepted only when the search compares element field 0 with the argument, takes the first hit,
+    and hands back field 1 of the hit unchanged; -> {literal: last path segment} (first entry wins, as `find` does)."""
+    prog = getattr(fn, "prog", None)
+    if prog is None:
+        return None
+
+    def mentions(e, out):
+        if isinstance(e, tuple):
+            if e and e[0] == "const" and isinstance(e[1], str):
+                out.append(e[1])
+            for x in e:
+                mentions(x, out)
+        elif isinstance(e, list):
+            for x in e:
+                mentions(x, out)
+        return out
+    calls = list(fn.calls())
+    finds = [c for c in calls if (c.callee or "").endswith("::find") and len(c.args) == 2]
+    maps = [c for c in calls if (c.callee or "") in ("std::option::Option::map", "core::option::Option::map")]
+    if len(finds) != 1 or len(maps) != 1:
+        return None
+    fc, mc = finds[0], maps[0]
+    ids = [i for i in mentions(fn.deep(fc.args[0]), []) if norm(i) in prog.consts]
+    if len(ids) != 1:
+        return None
+    tree = prog.consts[norm(ids[0])].get("tree")
+    if not tree or tree.get("k") != "array":
+        return None
+    # the result of map is what the function returns
+    rd = mc.dest
+    if rd is None or rd["l"] != 0 or rd["p"]:
+        return None
+    clos = {g.id.rsplit("::", 1)[-1]: g for g in prog.closures_of(fn.id)}
+
+    def clo_of(arg):
+        e = fn.deep(arg)
+        if isinstance(e, tuple) and e[0] == "agg":
+            m = re.search(r"(\{closure#\d+\})$", str(e[1]))
+            return clos.get(m.group(1)) if m else None
+        return None
+    pred, proj = clo_of(fc.args[1]), clo_of(mc.args[1])
+    if pred is None or proj is None:
+        return None
+    # predicate: one eq between field 0 of the element and the captured argument, returned as is
+    pc = list(pred.calls())
+    if len(pc) != 1 or not (pc[0].callee or "").split("::")[-1] == "eq" or pc[0].dest["l"] != 0 or any(pred.blocks[b]["t"]["k"] == "switch" for b in pred.live):
+        return None
+    sides = [str(pred.deep(a)) for a in pc[0].args]
+    elem = [s_ for s_ in sides if "('arg', 2)" in s_ and "'0'" in s_]
+    capt = [s_ for s_ in sides if "('arg', 1)" in s_ and "('arg', 2)" not in s_]
+    if len(elem) != 1 or len(capt) != 1:
+        return None
+    # projection: field 1 of the hit, nothing else
+    if list(proj.calls()) or any(proj.blocks[b]["t"]["k"] == "switch" for b in proj.live):
+        return None
+    rets = [st for b in sorted(proj.live) for st in proj.blocks[b]["s"] if st["lhs"]["l"] == 0 and not st["lhs"]["p"]]
+    if len(rets) != 1 or rets[0]["rv"]["k"] != "use":
+        return None
+    pe = str(proj.deep(rets[0]["rv"]["a"]))
+    if "('arg', 2)" not in pe or "'1'" not in pe:
+        return None
+    table = {}
+    for row in tree["es"]:
+        if row.get("k") != "tup" or len(row["es"]) != 2 or row["es"][0].get("k") != "lit" or not row["es"][0]["v"].startswith("Str(") or row["es"][1].get("k") != "path":
+            return None
+        table.setdefault(lit_str(row["es"][0]["v"]), row["es"][1]["res"].split("::")[-1])
+    return table or None
 
 
 def find_matches(fn, scrut_ty_contains=None, scrut_contains=None):
